@@ -107,3 +107,34 @@ theorem replaceOuter_balanced (n : Name) (as : List Attr) (body rest : List Tok)
     | directive s => simp only [depthAfter] at h; simp [replaceOuter, ih _ _ h]
 
 end XmppModel.Encoder
+
+namespace XmppModel.Encoder
+open XmppModel.Xml
+
+/-- nesting is translation invariant: a list that takes depth `r` to `r'` takes `r + k` to `r' + k` -/
+theorem depthAfter_shift (p : List Tok) : ∀ (r r' k : Nat), depthAfter r p = some r' →
+    depthAfter (r + k) p = some (r' + k) := by
+  induction p with
+  | nil => intro r r' k h; simp [depthAfter] at h; simp [depthAfter, h]
+  | cons t ts ih =>
+    intro r r' k h
+    cases t with
+    | start n as =>
+      simp only [depthAfter] at h ⊢
+      have := ih (r + 1) r' k h
+      have e : r + 1 + k = r + k + 1 := by omega
+      rw [e] at this; exact this
+    | stop n =>
+      cases r with
+      | zero => simp [depthAfter] at h
+      | succ j =>
+        simp only [depthAfter] at h
+        have := ih j r' k h
+        have e : j + 1 + k = (j + k) + 1 := by omega
+        rw [e]; simp only [depthAfter]; exact this
+    | chars s => simp only [depthAfter] at h ⊢; exact ih r r' k h
+    | comment s => simp only [depthAfter] at h ⊢; exact ih r r' k h
+    | procInst a b => simp only [depthAfter] at h ⊢; exact ih r r' k h
+    | directive s => simp only [depthAfter] at h ⊢; exact ih r r' k h
+
+end XmppModel.Encoder
